@@ -49,7 +49,7 @@ Lemma prun_steps os : forall s sp',
 Proof.
   induction os as [|o os IH]; intros s sp' Hall Hrun.
   - injection Hrun as <-. split; reflexivity.
-  - cbn [forallb] in Hall. apply andb_true_iff in Hall as [Ho Hos]. destruct o as [o|c]; [|discriminate].
+  - cbn [forallb] in Hall. apply andb_true_iff in Hall as [Ho Hos]. destruct o as [o|c|c P]; [|discriminate|discriminate].
     cbn [prun] in Hrun. destruct (pstep t (s, told_map t s) (PStep o)) as [[s1 p1]|e] eqn:Hp; [|discriminate].
     pose proof (pstep_pins s o s1 p1 Hp) as ->.
     cbn [map unstep run]. cbn [pstep] in Hp. destruct (step t s o) as [s2|e] eqn:Hs; [|discriminate].
